@@ -23,6 +23,8 @@ structure CrdtOps (σ ω : Type) where
   spec : List ω → List ω → String := fun _ _ => ""
   /-- delivery discipline under which `spec` is claimed: may `op` be applied by a replica knowing `K` (log `U`)? -/
   ok : List ω → List ω → ω → Bool := fun _ _ _ => true
+  /-- the dot an op carries, if any (freshness oracle of C07) -/
+  opDot : ω → Option String := fun _ => none
 
 structure MState (σ ω : Type) where
   reps : List σ
@@ -206,6 +208,8 @@ def exec (T : CrdtOps σ ω) (m : MState σ ω) (toks : List String) : MState σ
           let same := match T.eq with
             | some e => (match e s s' with | some b => showBool b | none => "panic")
             | none => "na"
+          -- a panicking `==` aborts the whole command in the harness (state unchanged)
+          if same = "panic" then (m, "panic") else
           let m' := m.setRep r s'
           (m', "json=" ++ showErr text ++ " same=" ++ same ++ " " ++ T.obs s')
         | (text, none) => (m, "json=" ++ showErr text ++ " norestore")
@@ -220,22 +224,118 @@ def exec (T : CrdtOps σ ω) (m : MState σ ω) (toks : List String) : MState σ
         match p op with
         | (text, some op') => ({ m with ops := setKey name op' m.ops }, "json=" ++ showErr text ++ " op=" ++ T.showOp op')
         | (text, none) => (m, "json=" ++ showErr text ++ " norestore")
+  | ["ML", r1, r2, r3] =>
+    match m.rep r1, m.rep r2, m.rep r3, T.merge with
+    | some i, some j, some k, some mg =>
+      match m.reps[i]?, m.reps[j]?, m.reps[k]? with
+      | some a, some b, some c =>
+        -- `none` = the Rust `==` panics (the harness then prints `panic` for the whole command);
+        -- like Rust's `&&`, `==` is only evaluated when the observations agree
+        let same (x y : σ) : Option Bool :=
+          if T.obs x != T.obs y then some false else
+          match T.eq with
+          | some e => e x y
+          | none => some true
+        let f (b : Bool) : String := if b then "ok" else "FAIL"
+        match same (mg a b) (mg b a), same (mg (mg a b) c) (mg a (mg b c)), same (mg a a) a with
+        | some x, some y, some z => (m, "comm=" ++ f x ++ " assoc=" ++ f y ++ " idem=" ++ f z)
+        | _, _, _ => (m, "panic")
+      | _, _, _ => bad
+    | _, _, _, _ => bad
+  | ["MU", rs, rs2] =>
+    match m.rep rs, m.rep rs2, T.merge with
+    | some r, some r2, some mg =>
+      if m.forgot.getD r false || m.forgot.getD r2 false then (m, "mu=na") else
+      match m.reps[r]?, m.reps[r2]? with
+      | some a, some b =>
+        let merged := mg a b
+        let k1 := m.know.getD r []
+        let k2 := m.know.getD r2 []
+        let delivered := m.ops.foldl (fun acc (n, op) => if k2.contains n && !k1.contains n then T.apply acc op else acc) a
+        let same : Option Bool :=
+          if T.obs merged != T.obs delivered then some false else
+          match T.eq with
+          | some e => e merged delivered
+          | none => some true
+        match same with
+        | some b => (m, "mu=" ++ (if b then "ok" else "FAIL"))
+        | none => (m, "panic")
+      | _, _ => bad
+    | _, _, _ => bad
+  | ["AB", rs] =>
+    match m.rep rs with
+    | none => bad
+    | some r =>
+      if m.forgot.getD r false then (m, "absorb=na") else
+      match m.reps[r]? with
+      | none => bad
+      | some s0 =>
+        let before := T.obs s0
+        let k1 := m.know.getD r []
+        -- phase 1: duplicates, in definition order
+        let dupPhase := m.ops.foldl (fun (acc : σ × Nat × Option String) (n, op) =>
+          match acc.2.2 with
+          | some _ => acc
+          | none =>
+            if k1.contains n then
+              let s' := T.apply acc.1 op
+              if T.obs s' != before then (s', acc.2.1 + 1, some ("absorb=FAIL:dup:" ++ n)) else (s', acc.2.1 + 1, none)
+            else acc) (s0, 0, none)
+        match dupPhase.2.2 with
+        | some f => (m, f)
+        | none =>
+          match T.merge with
+          | none => (m, "absorb=ok n=" ++ toString dupPhase.2.1)
+          | some mg =>
+            let s1 := mg dupPhase.1 dupPhase.1
+            if T.obs s1 != before then (m, "absorb=FAIL:self") else
+            let subset (a b : List String) : Bool := a.all (fun x => b.contains x)
+            let snaps := m.snaps.mergeSort (fun a b => a.1 ≤ b.1)
+            let ph2 := snaps.foldl (fun (acc : σ × Nat × Option String) (sn, st, k) =>
+              match acc.2.2 with
+              | some _ => acc
+              | none =>
+                if subset k k1 && !((lookup sn m.snapForgot).getD false) then
+                  let s' := mg acc.1 st
+                  if T.obs s' != before then (s', acc.2.1 + 1, some ("absorb=FAIL:snap:" ++ sn)) else (s', acc.2.1 + 1, none)
+                else acc) (s1, dupPhase.2.1, none)
+            match ph2.2.2 with
+            | some f => (m, f)
+            | none =>
+              let ph3 := (List.range m.reps.length).foldl (fun (acc : σ × Nat × Option String) i =>
+                match acc.2.2 with
+                | some _ => acc
+                | none =>
+                  if i != r && subset (m.know.getD i []) k1 && !(m.forgot.getD i false) then
+                    match m.reps[i]? with
+                    | some st =>
+                      let s' := mg acc.1 st
+                      if T.obs s' != before then (s', acc.2.1 + 1, some ("absorb=FAIL:peer:" ++ toString i)) else (s', acc.2.1 + 1, none)
+                    | none => acc
+                  else acc) ph2
+              match ph3.2.2 with
+              | some f => (m, f)
+              | none => (m, "absorb=ok n=" ++ toString ph3.2.1)
   | ["E"] =>
     -- convergence oracle evaluated on the model (always `ok` where the theorems apply)
     let reps := (List.range m.reps.length).filterMap (fun i =>
       match m.reps[i]? with
-      | some s => if m.forgot.getD i false then none else some ("r" ++ toString i, T.obs s, m.know.getD i [])
+      | some s => if m.forgot.getD i false then none else some ("r" ++ toString i, T.obs s, m.know.getD i [], s)
       | none => none)
     let snaps := (m.snaps.mergeSort (fun a b => a.1 ≤ b.1)).filterMap (fun (n, s, k) =>
-      if (lookup n m.snapForgot).getD false then none else some ("s" ++ n, T.obs s, k))
+      if (lookup n m.snapForgot).getD false then none else some ("s" ++ n, T.obs s, k, s))
     let all := reps ++ snaps
-    let rec go (l : List (String × String × List String)) (pairs : Nat) : String :=
+    let neq (x y : σ) : Bool := match T.eq with
+      | some e => e x y == some false
+      | none => false
+    let rec go (l : List (String × String × List String × σ)) (pairs : Nat) : String :=
       match l with
       | [] => "conv=ok pairs=" ++ toString pairs
       | x :: t =>
-        let same := t.filter (fun y => y.2.2 = x.2.2)
-        match same.find? (fun y => y.2.1 ≠ x.2.1) with
-        | some y => "conv=FAIL:" ++ x.1 ++ ":" ++ y.1
+        let same := t.filter (fun y => y.2.2.1 = x.2.2.1)
+        -- first offending partner in order: observation differs, or `==` says false
+        match same.find? (fun y => y.2.1 ≠ x.2.1 || neq x.2.2.2 y.2.2.2) with
+        | some y => if y.2.1 ≠ x.2.1 then "conv=FAIL:" ++ x.1 ++ ":" ++ y.1 else "conv=FAIL:eq:" ++ x.1 ++ ":" ++ y.1
         | none => go t (pairs + same.length)
     (m, go all 0)
   | _ => bad
@@ -247,8 +347,11 @@ where
       match T.gen s a args with
       | none => (m, "nogen")
       | some op =>
+        let fresh := match T.opDot op with
+          | some d => if m.ops.any (fun (n, o) => n != name && T.opDot o == some d) then " fresh=FAIL" else " fresh=ok"
+          | none => ""
         let m' := ({ m with ops := setKey name op m.ops }.setRep r (T.apply s op)).learn r [name]
-        (m', "op=" ++ T.showOp op ++ " " ++ obsRep T m' r)
+        (m', "op=" ++ T.showOp op ++ fresh ++ " " ++ obsRep T m' r)
 
 end MState
 
